@@ -119,10 +119,9 @@ func (tty *devTty) Drain() error {
 
 func (tty *devTty) Stop() error {
 	tty.l.Lock()
-	if err := term.Restore(tty.fd, tty.saved); err != nil {
-		tty.l.Unlock()
-		return err
-	}
+	// keep going if the terminal settings cannot be restored (the terminal
+	// may have hung up): the watcher goroutine still has to be stopped
+	err := term.Restore(tty.fd, tty.saved)
 	_ = tty.f.SetReadDeadline(time.Now())
 
 	signal.Stop(tty.sig)
@@ -134,7 +133,7 @@ func (tty *devTty) Stop() error {
 	// close our tty device -- we'll get another one if we Start again later.
 	_ = tty.f.Close()
 
-	return nil
+	return err
 }
 
 func (tty *devTty) WindowSize() (WindowSize, error) {
